@@ -205,6 +205,86 @@ example : (run true cfgEx {} [.schedule, .fire 1, .retFailSched, .fire 3, .retFa
 
 example : jit cfgEx 1000 0 = 800 ∧ jit cfgEx 1000 999 = 1199 := by decide
 
+
+/-! ### Shape of the backoff sequence (for multiplier `m = mnum/mden ≥ 1` and `I ≤ M`)
+
+  `dseq_mono`, `dseq_le_max_all`: d₀ ≤ d₁ ≤ … ≤ M.  `dseq_cap_absorbing`: once M, always M.
+  `dseq_reaches_cap`: if `I·(m−1) ≥ 1` (each step gains at least 1 ns; without it truncation can
+  pin the sequence below the cap, e.g. I = 1 ns, m = 3/2) then dₖ = M for every k ≥ M − I.
+  `dseq_step_slack`: a step that is not capped loses less than one nanosecond to truncation:
+  dₖ·m < dₖ₊₁ + 1.  (The design's `|dₖ − min(I·mᵏ, M)| < k+1` is false for m > 1: the truncation
+  error of step i is multiplied by m in every later step; `dseq_le_geometric` is the true upper
+  half, `dseq_step_slack` the per-step lower half.)  All in Lemmas/C31.lean. -/
+
+example : cfgEx.mden ≤ (cfgEx.mnum - cfgEx.mden) * cfgEx.I ∧ cfgEx.I ≤ cfgEx.M ∧ 0 < cfgEx.mden := by decide
+example : dseq cfgEx 2 = 4000 ∧ dseq cfgEx 3 = 5000 ∧ dseq cfgEx 6 = 5000 := by decide
+
+/-! ### n peer addresses (`Sys`, `sysStep` in Model/C31.lean) -/
+
+inductive SysReachable (c : Cfg) : Sys → Prop where
+  | init : SysReachable c (fun _ => {})
+  | step (s : Sys) (l : SysLabel) : l.wf = true → SysReachable c s → SysReachable c (sysStep c s l).1
+
+/-- Every address on its own is a run of the single-address LTS (steps of other addresses are
+    invisible to it). -/
+theorem sys_component_reachable (c : Cfg) (s : Sys) (h : SysReachable c s) (a : Nat) : Reachable c (s a) := by
+  induction h generalizing a with
+  | init => exact .init
+  | step s l _ _ ih =>
+    cases l with
+    | «at» b l =>
+      simp only [sysStep]
+      by_cases hab : a = b
+      · subst hab; simp only [↓reduceIte]; exact .step _ l (ih a)
+      · simp only [hab, ↓reduceIte]; exact ih a
+    | all l => exact .step _ l (ih a)
+
+/-- The per-address copies of `paused` / `closed` always agree: the product is a system with ONE
+    shared flag, and the flag is the only thing through which addresses influence each other. -/
+theorem sys_flags_agree (c : Cfg) (s : Sys) (h : SysReachable c s) (a b : Nat) :
+    (s a).paused = (s b).paused ∧ (s a).closed = (s b).closed := by
+  induction h generalizing a b with
+  | init => exact ⟨rfl, rfl⟩
+  | step s l hwf _ ih =>
+    cases l with
+    | «at» x l =>
+      have hl : l.isGlobal = false := by simpa [SysLabel.wf] using hwf
+      have hx := step_local_flags c (s x) l hl
+      simp only [sysStep]
+      by_cases ha : a = x <;> by_cases hb : b = x <;> simp only [ha, hb, ↓reduceIte]
+      · exact ⟨by trivial, by trivial⟩
+      · exact ⟨hx.1.trans (ih x b).1, hx.2.trans (ih x b).2⟩
+      · exact ⟨(ih a x).1.trans hx.1.symm, (ih a x).2.trans hx.2.symm⟩
+      · exact ih a b
+    | all l =>
+      have hl : l.isGlobal = true := by simpa [SysLabel.wf] using hwf
+      exact step_global_flags c (s a) (s b) l hl (ih a b).1 (ih a b).2
+
+/-- **n addresses**: while the reconnector is paused (the flag of ANY address — they agree) no
+    attempt starts for any address, and every attempt of address `a` carries the delay of a's own
+    position in the backoff sequence, whatever the other addresses do. -/
+theorem C31_sys (c : Cfg) (s : Sys) (h : SysReachable c s) (l : SysLabel) (a n d : Nat) (wp : Bool)
+    (he : (sysStep c s l).2 = some (a, .attempt n d wp)) :
+    (∀ b, (s b).paused = false) ∧ wp = false ∧ ∃ k, n = k + 1 ∧ d = dseq c k := by
+  cases l with
+  | all l => simp [sysStep] at he
+  | «at» x l =>
+    simp only [sysStep, Option.map_eq_some_iff] at he
+    obtain ⟨e, hse, hpair⟩ := he
+    simp only [Prod.mk.injEq] at hpair
+    obtain ⟨rfl, rfl⟩ := hpair
+    obtain ⟨hp, hwp⟩ := C31_paused_no_attempt c (s x) l n d wp hse
+    refine ⟨fun b => ((sys_flags_agree c s h b x).1).trans hp, hwp, ?_⟩
+    exact C31_delay_seq c (s x) (sys_component_reachable c s h x) l n d wp hse
+
+
+/-- eight addresses in flight, Pause, every callback fails: nothing is armed anywhere. -/
+example :
+    let ls : List SysLabel := (List.range 8).map (fun a => .at a .schedule) ++ (List.range 8).map (fun a => .at a (.fire 1)) ++
+      [.all .pause] ++ (List.range 8).map (fun a => .at a .retFailSched)
+    let s := ls.foldl (fun s l => (sysStep cfgEx s l).1) (fun _ => {})
+    (List.range 8).all (fun a => (s a).live.isEmpty && (s a).paused) = true := by decide
+
 /-! ### Witnesses of the defects of the code before the fix (`fx = false`) -/
 
 /-- Pause while the first attempt is blocked in the callback, then let it fail: the second
